@@ -543,6 +543,7 @@ class Scan:
         self._rec_seen: list = []
         self.used_records: dict[str, object] = {}
         self.prefix_bugs: list[str] = []
+        self.walk_notes: list[str] = []
 
     def facts(self, g: FuncInfo) -> Facts:
         if g.fq not in self._facts:
@@ -1117,8 +1118,32 @@ class Scan:
         for n in own_nodes(g.node):
             if isinstance(n, ast.For) and isinstance(n.target, (ast.Tuple, ast.List)) and n.target.elts and isinstance(n.target.elts[0], ast.Name) and n.target.elts[0].id in R and self.recursive_source(g, n.iter) is not None:
                 if rcs.walk_pruned(self, g, n, R):
+                    # every root after the first is a sub-directory that survived the pruning; the first one is the start path:
+                    # when that is known not to be excluded where the walk begins, no root is excluded either
+                    if self._walk_start_clean(g, n):
+                        return f_and([f_not(ANC), f_not(EXCL)])
                     return f_not(ANC)
         return TRUE
+
+    def _walk_start_clean(self, g: FuncInfo, loop: ast.For) -> bool:
+        key = ("walkstart", g.fq, id(loop))
+        if key in self._ret_cache:
+            return self._ret_cache[key]
+        self._ret_cache[key] = False
+        call = self.recursive_source(g, loop.iter)
+        ok = False
+        if call is not None and lib_name(self.repo, g, call) == "os.walk" and (call.args or any(k.arg == "top" for k in call.keywords)):
+            start = call.args[0] if call.args else next(k.value for k in call.keywords if k.arg == "top")
+            fx = self.facts(g)
+            an = fx.alias_name(start)
+            if an is not None:
+                rs = fx.roots(ast.Name(id=an, ctx=ast.Load()))
+                Rs = rs[0] if len(rs) == 1 else fx.cls_of(an)
+                anchor = stmt_of(call) or loop
+                tots = [t for t in self.totals(g, anchor, Rs, 1) if satisfiable(t, CONSTRAINTS)]
+                ok = bool(tots) and all(implies(t, f_not(EXCL), CONSTRAINTS) for t in tots)
+        self._ret_cache[key] = ok
+        return ok
 
     def child_total(self, parent_totals: list[Formula]) -> list[Formula]:
         """What is known about an entry `d / x` of a directory d from what is known about d: it comes out of the same recursive
@@ -1439,6 +1464,8 @@ def run(repo: Repo, res: Result, rule: str, anchors: Anchors | None = None) -> i
                     break
             if not ok:
                 break
+        if not ok and sc.walk_notes and "suffix is '.py'" not in why:
+            why += "; " + "; ".join(sc.walk_notes[:2])
         if ok and routed:
             res.undecide(rule, key, f"the verdict of the exclusion test reaches this point through `{routed}`, which the analysis cannot follow: no verdict on whether it guards the {ev.kind}", where(g, ev.node))
             continue
